@@ -12,6 +12,20 @@
 (* goal whose weight is the true distance in the current world.  The module     *)
 (* says nothing about g/rhs/keys: any correct planner refines it.               *)
 (*                                                                              *)
+(* Family "gate": worlds with ZERO-weight edges.  Every world has one designated *)
+(* goal ZG; an edge into or out of ZG may have base cost 0 (a free gate), a free  *)
+(* two-way gate ZG <-> GU is planted in most worlds (a zero-weight cycle through  *)
+(* the goal), every other edge has base cost 1 or 2.  A level flip raises a free  *)
+(* gate from 0 to Delta or drops it back to 0, so costs next to the goal rise and *)
+(* drop in every single / double change.  Following optimal edges no longer      *)
+(* strictly decreases the distance; OptReach states what remains true: off the    *)
+(* goal the optimal edges form an acyclic graph, so every chain of optimal steps  *)
+(* reaches the goal within N-1 steps.  Scripts use the goal ZG only ("goals").    *)
+(* (gonum documents only "panics on a negative weight"; the published algorithm  *)
+(* assumes 0 < c.  Zero-weight edges between nodes other than the goal are        *)
+(* exercised by the code->spec recorder, class NoZeroCycleOffGoal of               *)
+(* ShortestPathTrace.tla, where the planner of the unchanged tree is not exact.)   *)
+(*                                                                              *)
 (* The heuristic handed to the planner is provided by the specification:        *)
 (*   "base"       h(a,b) = true distance a -> b in the base world (all levels   *)
 (*                0): admissible in every world of the family and consistent    *)
@@ -32,7 +46,8 @@
 (* that state graph.                                                              *)
 EXTENDS PathDefs, Json
 
-CONSTANTS Family,     \* "small": N nodes, pseudo-random edge set;  "grid": GR x GC 4-neighbour grid
+CONSTANTS Family,     \* "small": N nodes, pseudo-random edge set;  "grid": GR x GC 4-neighbour grid;
+                      \* "gate": as "small" plus zero-weight edges at a designated goal
           N, GR, GC,
           Delta,      \* cost of a raised edge = base + Delta
           Heur,       \* "base" | "manhattan"
@@ -64,13 +79,26 @@ Manh(u, v) == Abs(Row(u) - Row(v)) + Abs(Col(u) - Col(v))
 Adjacent(u, v) == Abs(Row(u) - Row(v)) + Abs(Col(u) - Col(v)) = 1
 AllPairs == SortedSeq({u * 100 + v : <<u, v>> \in {q \in (1 .. NN) \X (1 .. NN) :
                  q[1] # q[2] /\ (Family = "grid" => Adjacent(q[1], q[2]))}})
-\* digit of pair j in world k: 0 absent (small family only), 1/2 base 1 low/high, 3/4 base 2 low/high
-Digit(k, j) == IF Family = "grid" THEN 1 + Rnd(k, j, 4) ELSE Rnd(k, j, 5)
+\* family "gate": the designated goal, the other end of the planted two-way gate
+ZG(k) == 1 + Rnd(k, 77, NN)
+GU(k) == LET r == 1 + Rnd(k, 78, NN - 1) IN IF r >= ZG(k) THEN r + 1 ELSE r
+Planted(k, code) == Family = "gate" /\ code \in {ZG(k) * 100 + GU(k), GU(k) * 100 + ZG(k)}
+\* digit of pair j in world k: 0 absent (small families only), 1/2 base 1 low/high, 3/4 base 2 low/high
+Digit(k, j) == IF Family = "grid" THEN 1 + Rnd(k, j, 4)
+               ELSE LET d == Rnd(k, j, 5)
+                    IN IF d = 0 /\ Planted(k, AllPairs[j]) THEN 1 + Rnd(k, 500 + j, 4) ELSE d
+\* family "gate": an edge into or out of the goal is free (base cost 0) with probability 1/2, the
+\* planted gate (both directions alike) with probability 2/3
+ZeroBase(k, e) == /\ Family = "gate"
+                  /\ (e[1] = ZG(k) \/ e[2] = ZG(k))
+                  /\ IF Planted(k, e[1] * 100 + e[2]) THEN Rnd(k, 79, 3) # 0
+                     ELSE Rnd(k, 2000 + e[1] * 100 + e[2], 2) = 0
 ESof(k) == LET on == {j \in 1 .. Len(AllPairs) : Digit(k, j) > 0}
                ks == SortedSeq({AllPairs[j] : j \in on})
            IN [j \in 1 .. Len(ks) |-> <<ks[j] \div 100, ks[j] % 100>>]
 DigitOfEdge(k, e) == Digit(k, CHOOSE j \in 1 .. Len(AllPairs) : AllPairs[j] = e[1] * 100 + e[2])
-BaseOf(k) == LET es == ESof(k) IN [j \in 1 .. Len(es) |-> IF DigitOfEdge(k, es[j]) <= 2 THEN 1 ELSE 2]
+BaseOf(k) == LET es == ESof(k) IN [j \in 1 .. Len(es) |-> IF ZeroBase(k, es[j]) THEN 0
+                                                        ELSE IF DigitOfEdge(k, es[j]) <= 2 THEN 1 ELSE 2]
 Lvl0Of(k) == LET es == ESof(k) IN [j \in 1 .. Len(es) |-> IF DigitOfEdge(k, es[j]) \in {2, 4} THEN 1 ELSE 0]
 
 Cost(base, lv) == [j \in 1 .. Len(base) |-> base[j] + Delta * lv[j]]
@@ -109,6 +137,12 @@ HeuristicOKFor(es, c, h) ==
 OptProgressFor(es, c, d) ==
     \A t \in 1 .. NN : LET o == OptOf(es, c, d, t)
                       IN \A v \in 1 .. NN : v # t => o[v] # {} /\ \A u \in o[v] : d[u][t] < d[v][t]
+
+\* with zero-weight edges: every node has an optimal successor and no chain of optimal edges
+\* towards t returns to where it started, so any such chain reaches t within NN - 1 steps
+OptReachFor(es, c, d, t) ==
+    LET o == OptOf(es, c, d, t)
+    IN \A v \in 1 .. NN : v # t => o[v] # {} /\ v \notin Closure(o, o[v])
 
 (***************************** state machine *******************************)
 ES == wes
@@ -207,12 +241,23 @@ AllChangesOK == Mode = "tables" =>
     \A S \in ChangeSets : LET c == Cost(BASE, Flip(lvl, S))
                           IN OptProgressFor(ES, c, Ints(TWof(ES, c)))
 
+\* family "gate" (tables role): the class of the worlds and what replaces OptProgress
+Goals == IF Family = "gate" THEN {ZG(idx)} ELSE 1 .. NN
+GateClassOK == Family = "gate" =>
+    /\ \A j \in 1 .. Len(ES) : BASE[j] = 0 => (ES[j][1] = ZG(idx) \/ ES[j][2] = ZG(idx))
+    /\ \A j \in 1 .. Len(ES) : BASE[j] \in {0, 1, 2}
+OptReach == Mode = "tables" => \A t \in Goals : OptReachFor(ES, CUR, D, t)
+AllChangesReach == Mode = "tables" =>
+    \A S \in ChangeSets : LET c == Cost(BASE, Flip(lvl, S))
+                              d == Ints(TWof(ES, c))
+                          IN \A t \in Goals : OptReachFor(ES, c, d, t)
+
 (************************** tables role (generator) ************************)
 EmitTables ==
   (Emit /\ Mode = "tables") =>
     LET full(c) == LET d == Ints(TWof(ES, c))
                    IN [d |-> d, opt |-> [t \in 1 .. NN |-> OptOf(ES, c, d, t)]]
-    IN PrintT(ToJson([k |-> "w", idx |-> idx, n |-> NN,
+    IN PrintT(ToJson([k |-> "w", idx |-> idx, n |-> NN, goals |-> Goals,
          e   |-> {<<ES[j][1], ES[j][2], CUR[j]>> : j \in 1 .. Len(ES)},
          h   |-> HTable(ES, BASE),
          tab |-> full(CUR),
